@@ -779,7 +779,10 @@ func chainNames(f *rfid) []string {
 //	stale remove: two fids reach the same entry; one removes it, the name is
 //	created again, the other (stale) fid is removed - the new entry must stay;
 //	removed directory: a fid deep below a directory that is then removed walks
-//	'..' back through it, lists it and creates in it.
+//	'..' back through it, lists it and creates in it;
+//	deep tree: a tree three levels below the directory is built, a fid walks to
+//	the leaf, then '..'^k ++ names (siblings / cousins) to a NEW fid with the
+//	source fid kept, used again ('..' from it) and both clunked in either order.
 func (g *gen) scenario() bool {
 	rng := g.rng
 	s := rng.Intn(g.nsess)
@@ -808,7 +811,60 @@ func (g *gen) scenario() bool {
 		q = append(q, op{kind: "walk", s: ss, fid: from, newfid: c})
 		return c
 	}
-	if rng.Bool() { // stale remove
+	if rng.Chance(1, 3) { // deep tree: up k levels and down again from a leaf, the source fid kept
+		n1, n2, n3 := goodNames[rng.Intn(len(goodNames))], goodNames[rng.Intn(len(goodNames))], goodNames[rng.Intn(len(goodNames))]
+		sib := goodNames[rng.Intn(len(goodNames))]
+		for sib == n2 {
+			sib = goodNames[rng.Intn(len(goodNames))]
+		}
+		mk := func(at uint32, nm string, p uint32) {
+			c := clone(s, at)
+			q = append(q, op{kind: "create", s: s, fid: c, name: nm, perm: p, mode: 0}, op{kind: "clunk", s: s, fid: c})
+		}
+		dirPerm := uint32(p9p.DMDIR | 0777)
+		mk(d, n1, dirPerm)
+		f1 := fresh(s)
+		q = append(q, op{kind: "walk", s: s, fid: d, newfid: f1, names: []string{n1}})
+		mk(f1, n2, dirPerm)
+		mk(f1, sib, perm)
+		f2 := fresh(s)
+		q = append(q, op{kind: "walk", s: s, fid: f1, newfid: f2, names: []string{n2}})
+		mk(f2, n3, dirPerm)
+		src := fresh(s)
+		q = append(q, op{kind: "walk", s: s, fid: d, newfid: src, names: []string{n1, n2, n3}})
+		var names []string
+		switch rng.Intn(4) {
+		case 0:
+			names = []string{"..", n3}
+		case 1:
+			names = []string{"..", "..", "..", n1, sib}
+		default:
+			names = []string{"..", "..", sib}
+		}
+		dst := fresh(s)
+		if rng.Chance(1, 6) {
+			dst = src // in place: the source is released by the walk itself
+		}
+		q = append(q, op{kind: "walk", s: s, fid: src, newfid: dst, names: names})
+		if dst != src {
+			// the source fid still names /n1/n2/n3 through the same chain
+			t := fresh(s)
+			q = append(q, op{kind: "walk", s: s, fid: src, newfid: t, names: []string{".."}}, op{kind: "stat", s: s, fid: t})
+			t2 := fresh(s)
+			q = append(q, op{kind: "walk", s: s, fid: src, newfid: t2, names: []string{"..", "..", n2, n3}})
+			if rng.Bool() {
+				q = append(q, op{kind: "clunk", s: s, fid: src}, op{kind: "clunk", s: s, fid: dst})
+			} else {
+				q = append(q, op{kind: "clunk", s: s, fid: dst}, op{kind: "clunk", s: s, fid: src})
+			}
+			q = append(q, op{kind: "clunk", s: s, fid: t}, op{kind: "clunk", s: s, fid: t2})
+		} else {
+			q = append(q, op{kind: "clunk", s: s, fid: dst})
+		}
+		if rng.Bool() {
+			q = append(q, op{kind: "clunk", s: s, fid: f1}, op{kind: "clunk", s: s, fid: f2}, op{kind: "reftable"})
+		}
+	} else if rng.Bool() { // stale remove
 		c1 := clone(s, d)
 		q = append(q, op{kind: "create", s: s, fid: c1, name: nm, perm: perm, mode: 2}, op{kind: "clunk", s: s, fid: c1})
 		a, b := fresh(s), fresh(s)
@@ -970,7 +1026,7 @@ func (g *gen) walkNames(f *rfid) []string {
 // what the implementation did so far, as far as the property determines it).
 func (g *gen) next() op {
 	rng := g.rng
-	if len(g.pending) == 0 && rng.Chance(1, 40) {
+	if len(g.pending) == 0 && rng.Chance(1, 30) {
 		g.scenario()
 	}
 	if len(g.pending) > 0 {
